@@ -3,6 +3,7 @@ JSON fact file written by /verif/driver (mir_built of crate `bio`).
 
 Nothing here executes rust-bio code; everything is a static walk over MIR."""
 import json
+import os
 import re
 import sys
 from collections import defaultdict, deque
@@ -19,6 +20,16 @@ class Facts:
         self.raw = raw
         self.crate = raw['crate']
         self.nonce = raw.get('nonce')
+        # private functions that were merely renamed get their audited name back (rules/renames.py)
+        self.renames = {}
+        if raw['crate'] == 'bio' and not os.environ.get('VERIF_NO_RENAMES'):
+            try:
+                from .po_known import SIGS
+                from . import renames
+                self.renames = renames.compute(raw, SIGS)
+                renames.apply(raw, self.renames)
+            except ImportError:
+                pass
         self.bodies = {}
         self.body_list = []
         for b in raw['bodies']:
